@@ -17,6 +17,7 @@ import PdshVerif.Hostlist.LemmasParse
 import PdshVerif.Hostlist.LemmasIter
 import PdshVerif.Hostlist.LemmasCreate
 import PdshVerif.Hostlist.LemmasTok
+import PdshVerif.Hostlist.LemmasShift
 
 namespace PdshVerif.C01
 open PdshVerif.Hostlist PdshVerif.Gen
@@ -106,6 +107,14 @@ theorem create_render (lead : Str) (items : List (Spec.Word × Str))
 theorem iter_all (h : HL) (hg : h.Good) (hn : ∀ r ∈ h.ranges.toList, r.Narrow) (n : Nat)
     (hlen : h.hosts.length ≤ n) : iterAll h n = h.hosts := by
   rw [iterAll_eq h hg.1 hn n, List.take_of_length_le hlen]
+
+/-- SHIFT.  `hostlist_shift` until NULL (the loop of `wcoll_expand`) on a good list hands out
+    exactly the denoted hosts, in order, and never meets the NULL range record (`ShiftFits`: the
+    numbers fit the `strlen(prefix)+width+16` bytes `hostrange_shift` allocates — true of every
+    record whose number has at most width+15 digits) -/
+theorem shift_all (h : HL) (hg : h.Good) (hf : ∀ r ∈ h.ranges.toList, r.ShiftFits) (n : Nat)
+    (hlen : h.hosts.length ≤ n) : shiftAll h n = some h.hosts := by
+  rw [shiftAll_eq h hg hf n, List.take_of_length_le hlen]
 
 /-
   FULL STATEMENT of `iter_all` without `Narrow` is FALSE of the unchanged code (D17):
